@@ -186,6 +186,9 @@ def evaluate(e, env):
             a, b = rec(n.args[0]), rec(n.args[1]); r = I(max(a.lo, b.lo), max(a.hi, b.hi))
         elif op == 'call:min':
             a, b = rec(n.args[0]), rec(n.args[1]); r = I(min(a.lo, b.lo), min(a.hi, b.hi))
+        elif op == 'call:clamp':
+            a, lo_, hi_ = rec(n.args[0]), rec(n.args[1]), rec(n.args[2])
+            r = I(min(max(a.lo, lo_.lo), hi_.lo), min(max(a.hi, lo_.hi), hi_.hi))
         elif op == 'call:sqrt': r = i_sqrt(rec(n.args[0]))
         elif op == 'call:copysign':
             a, b = rec(n.args[0]), rec(n.args[1])
@@ -325,6 +328,9 @@ def evaluate_d(e, x, box):
             (a, da), (b, db) = rec(n.args[0]), rec(n.args[1])
             f = max if op == 'call:max' else min
             r = (I(f(a.lo, b.lo), f(a.hi, b.hi)), da.hull(db))
+        elif op == 'call:clamp':
+            (a, da), (lo_, dlo), (hi_, dhi) = rec(n.args[0]), rec(n.args[1]), rec(n.args[2])
+            r = (I(min(max(a.lo, lo_.lo), hi_.lo), min(max(a.hi, lo_.hi), hi_.hi)), da.hull(dlo).hull(dhi))
         elif op == 'call:sqrt':
             a, da = rec(n.args[0]); s = i_sqrt(a)
             if s.lo <= 0: r = (s, I(-INF, INF))
